@@ -97,5 +97,29 @@ package controller
 //@ func fetchRemoteCollectionByPDH property C18 safety -bounds,-nil
 //@   calls fetchRemoteCollectionByPDH$1#1: requires $0 == remoteID && remoteID != "*"
 //@ func fetchRemoteCollectionByPDH$1 property C18 safety -bounds,-nil
+//@   # only a 200 answer is handed on (rewriteSignatures checks and relabels
+//@   # nothing else: any other status comes back from it untouched)
+//@   calls rewriteSignatures#1: requires resp.StatusCode == 200
 //@   calls Handler.remoteClusterRequest#1: requires $0 == remote && $1 == req
 //@   calls rewriteSignatures#1: requires $0 == remote && $1 == pdh && $2 == resp
+
+// The legacy federated handler decides with the EFFECTIVE method whether the
+// checking collection delegates apply: for a POST, the _method override of the
+// merged form (URL query and body alike - what lib/controller/router and the
+// remote's own router honour), so that a "POST ...?_method=GET" for a remote
+// collection cannot bypass the hash check and the signature relabelling.
+//@ func genericFederatedRequestHandler.ServeHTTP property C18 safety -bounds,-nil
+//@   ghost em string = ""
+//@   calls Values.Get#3: requires $recv == req.Form && $0 == "_method"
+//@   calls Values.Get#4: requires $recv == req.Form && $0 == "_method"
+//@   calls Values.Get#4: set em = $r
+//@   at assign effectiveMethod#2: assert effectiveMethod == em
+
+// remoteQueryUUIDs (legacy multi-object query): the form sent to each cluster
+// is built from scratch and holds only _method, count, select and filters -
+// nothing else of the caller's form is copied; in particular never an
+// api_token parameter, which saltAuthToken would not see there (it salts the
+// Authorization header and scrubs the URL query only).
+//@ func genericFederatedRequestHandler.remoteQueryUUIDs property C19 safety -bounds,-nil
+//@   calls Values.Encode#1: requires $recv == remoteParams && (forall k string :: has(remoteParams, k) ==> k == "_method" || k == "count" || k == "select" || k == "filters")
+//@   calls Handler.remoteClusterRequest#1: requires $0 == clusterID && clusterID != h.handler.Cluster.ClusterID
